@@ -47,24 +47,18 @@ def side() -> dict:
     if _side is None:
         _side = json.load(open(os.path.join(LEAN, "DV/Generated/tables.json")))
         _side["name_id"] = {n: i for i, n in enumerate(_side["names"])}
-        import diameter.message.avp.grouped as G
-        import diameter.message.commands as C
-        by_name = {}
-        for mod in (G, C):
-            for k, v in vars(mod).items():
-                if isinstance(v, type):
-                    by_name.setdefault(k, v)
-        from diameter.message import _base
-        for k in ("Message", "DefinedMessage", "UndefinedMessage"):
-            by_name[k] = getattr(_base, k)
+        import importlib
         _side["cls_by_id"] = {}
         _side["id_by_cls"] = {}
-        for table in ("class_defs", "msg_classes"):
-            for i, n in _side[table].items():
-                c = by_name.get(n)
-                if c is not None:
-                    _side["cls_by_id"][int(i)] = c
-                    _side["id_by_cls"][c] = int(i)
+        for i, (mod, qn) in _side["class_paths"].items():
+            try:
+                c = importlib.import_module(mod)
+                for part in qn.split("."):
+                    c = getattr(c, part)
+            except Exception:
+                continue
+            _side["cls_by_id"][int(i)] = c
+            _side["id_by_cls"][c] = int(i)
     return _side
 
 
@@ -338,7 +332,7 @@ def show_obj(o, cls_id: int) -> str:
         extra = o.additional_avps
     elif hasattr(o, "_additional_avps"):
         extra = o._additional_avps
-    fs = ";".join(f"{sd['name_id'][k]}={v}" for k, v in fields)
+    fs = ";".join(f"{i}={v}" for i, v in sorted((sd['name_id'][k], v) for k, v in fields))
     return f"O{cls_id}{{{fs}}}[" + ",".join(avpobj(a) for a in extra) + "]"
 
 
